@@ -46,6 +46,7 @@ ASSUMPTIONS = [
 ]
 
 FINDING_F7 = "C07/samplers.py:_image_bounds/linspace-n1"
+FINDING_POLE = "C07/samplers.py:_image_bounds/pole-interior"
 
 TAU = 6.28318530717958623200      # DEF TWOPI in _libtoasty.pyx:144 (== 2*np.pi)
 PI = float(np.pi)
@@ -358,7 +359,7 @@ def part_A(rng, tier, V, replay=None):
         tl = real_tiles(depth, cs)
         shallow = [t for t in tl if t.pos.n <= 3]
         deep = [t for t in tl if t.pos.n > 3]
-        k = 120 if tier == "quick" else 620
+        k = 95 if tier == "quick" else 620
         pool += [(cs.value, t) for t in shallow[:: (3 if tier == "quick" else 1)]]
         pool += [(cs.value, t) for t in rng.sample(deep, k)]
     nsyn = 60 if tier == "quick" else 300
@@ -390,7 +391,7 @@ def part_A(rng, tier, V, replay=None):
         terms.append("(mkC %s %s, [%s])" % (
             q4(corn[:, 0]), q4(corn[:, 1]),
             "; ".join(f"(mkBox {gq(b[0])} {gq(b[1])} {gq(b[2])} {gq(b[3])}, {g_bool(r)})" for b, r, _a in obs)))
-    codes = coq_lists(terms, "chk_tile", "c07a", shard=70, jobs=10)
+    codes = coq_lists(terms, "chk_tile", "c07a", shard=30, jobs=12)
     n_cmp = n_skip = n_true = 0
     hist = {}
     nontrivial = set()
@@ -439,7 +440,7 @@ def part_A(rng, tier, V, replay=None):
         sub.append((name, corn, b, a))
     aterms = ["(mkC %s %s, mkBox %s %s %s %s, %s)" % (q4(c[:, 0]), q4(c[:, 1]), gq(b[0]), gq(b[1]), gq(b[2]), gq(b[3]),
                                                       q4(a[:, 0])) for _n, c, b, a in sub]
-    acodes = coq_lists(aterms, "chk_arr", "c07m", shard=80, jobs=8)
+    acodes = coq_lists(aterms, "chk_arr", "c07m", shard=40, jobs=8)
     for (name, corn, b, a), code in zip(sub, acodes):
         if code != 0:
             V.disagreement("Filter.v r_lons ~ array after tile_intersects_latlon_bbox",
@@ -620,6 +621,28 @@ def diff_pyramids(a, b):
     return out
 
 
+def only_ties(rel, A, B, W, H, fmt):
+    """True when the two decoded tiles differ only at pixels whose real-valued source index is within
+    1e-9 of a rounding tie (there either neighbouring source pixel is a correct answer)."""
+    from toasty import toast
+    from toasty.pyramid import Pos
+    from toasty.toast import ToastCoordinateSystem as CS
+    if rel not in A or rel not in B or A[rel].shape != B[rel].shape:
+        return False
+    n, y, fn = rel.split(os.sep)
+    x = fn.split(".")[0].split("_")[1]
+    t = toast.create_single_tile(Pos(int(n), int(x), int(y)), coordsys=CS.PLANETARY)
+    lon, lat = toast.toast_tile_get_coords(t)
+    gx = (((lon + np.pi) % (2 * np.pi)) / (2 * np.pi)) * W - 0.5
+    gy = ((HALFPI - lat) / np.pi) * H - 0.5
+    tie = (np.abs(gx - np.floor(gx) - 0.5) < 1e-9) | (np.abs(gy - np.floor(gy) - 0.5) < 1e-9)
+    a, b = A[rel], B[rel]
+    neq = ~((a == b) | ((a != a) & (b != b))) if a.dtype.kind == "f" else (a != b)
+    if neq.ndim == 3:
+        neq = neq.any(axis=-1)
+    return not bool(np.any(neq & ~tie))
+
+
 def part_C(rng, tier, V, replay=None):
     from toasty import toast
     from toasty.samplers import ChunkedPlateCarreeSampler, plate_carree_planet_sampler
@@ -636,8 +659,11 @@ def part_C(rng, tier, V, replay=None):
     for gi, (nc, nr) in enumerate(grids):
         W = rng.randint(max(nc, 4), 40)
         H = rng.randint(max(nr, 3), 24)
-        specs.append((W, H, rand_split(rng, W, nc), rand_split(rng, H, nr), rng.choice(("f32", "rgb")),
-                      rng.choice((1, 2, 2, 3)) if tier == "thorough" else rng.choice((1, 2))))
+        if tier == "thorough":
+            depth = rng.choice((1, 2, 2, 3)) if nc * nr <= 6 else rng.choice((1, 2))
+        else:
+            depth = 2 if nc * nr <= 2 else 1
+        specs.append((W, H, rand_split(rng, W, nc), rand_split(rng, H, nr), rng.choice(("f32", "rgb")), depth))
     if replay is not None:
         specs.insert(0, (replay["W"], replay["H"], replay["cols"], replay["rows"], replay["mode"], replay["depth"]))
     for gi, (W, H, cols, rows, mode, depth) in enumerate(specs):
@@ -707,7 +733,7 @@ def part_C(rng, tier, V, replay=None):
             A = {k: v[..., :3] if (v.ndim == 3 and v.shape[2] == 4 and np.all(v[..., 3] == 255)) else v for k, v in A.items()}
             B = {k: v[..., :3] if (v.ndim == 3 and v.shape[2] == 4) else v for k, v in B.items()}
         n_e2e += 1
-        d = diff_pyramids(A, B)
+        d = [x for x in diff_pyramids(A, B) if not only_ties(x[0], A, B, W, H, fmt)]
         expected_files = 4 ** depth
         if d or len(B) != expected_files:
             V.disagreement("chunks_cover + chunk_unmasked_in_box + box_filter_complete, end to end "
@@ -715,20 +741,25 @@ def part_C(rng, tier, V, replay=None):
                            case, f"{expected_files} identical tiles", dict(differences=d[:6], files=(len(A), len(B))), True)
         shutil.rmtree(da, ignore_errors=True)
         shutil.rmtree(db, ignore_errors=True)
-    codes = coq_lists(bterms, "chk_cbounds", "c07cb", shard=200, jobs=2)
+    from concurrent.futures import ThreadPoolExecutor
+    with ThreadPoolExecutor(max_workers=3) as ex:
+        fb = ex.submit(coq_lists, bterms, "chk_cbounds", "c07cb", 30, 3)
+        fs = ex.submit(coq_lists, sterms, "chk_csample", "c07cs", 8, 8)
+        fg = ex.submit(coq_lists, gterms, "chk_grid", "c07cg", 2, 6)
+        codes, scodes, gcodes = fb.result(), fs.result(), fg.result()
     for (case, ic, spec, bnd), code in zip(binfo, codes):
         if code != 0:
             V.disagreement("Filter.v chunk_bounds ~ ChunkedPlateCarreeSampler._chunk_bounds", dict(case, ichunk=ic),
                            dict(model_code=code), dict(spec=list(spec), bounds=list(bnd)), None)
     n_pts = n_cmp = 0
-    for (case, ic, pts), cl in zip(sinfo, coq_lists(sterms, "chk_csample", "c07cs", shard=40, jobs=6)):
+    for (case, ic, pts), cl in zip(sinfo, scodes):
         for (a, b, o), code in zip(pts, cl):
             n_pts += 1
             n_cmp += code != 100
             if code not in (0, 100):
                 V.disagreement("Filter.v chunk_sample ~ ChunkedPlateCarreeSampler.sampler (mask and source pixel)",
                                dict(case, ichunk=ic, lon=a, lat=b), dict(model_code=code), dict(observed=o), None)
-    for (case, pick), cl in zip(ginfo, coq_lists(gterms, "chk_grid", "c07cg", shard=10, jobs=6)):
+    for (case, pick), cl in zip(ginfo, gcodes):
         for code in cl:
             if code not in (0, 100):
                 V.disagreement("chunks_cover evaluated on the model", case, "singleton = whole-map pixel", dict(model_code=code), None)
@@ -954,14 +985,14 @@ def part_E(rng, tier, V, replay=None):
     from toasty.toast import ToastCoordinateSystem as CS
     work = common.workdir()
     boxes = [((0.3, 1.2, -0.4, 0.9), 2, "astronomical"), ((6.0, 6.9, -1.5, -1.2), 3, "planetary"),
-             ((-0.2, 0.1, 1.2, HALFPI), 3, "astronomical"), ((2.0, 9.5, -0.1, 0.1), 2, "planetary")]
-    n = 3 if tier == "quick" else 14
+             ((-0.2, 0.1, 1.2, HALFPI), 2, "astronomical"), ((2.0, 9.5, -0.1, 0.1), 2, "planetary")]
+    n = 2 if tier == "quick" else 14
     for _ in range(n):
         lo = rng.uniform(-10, 10)
         w = rng.choice((rng.uniform(0.02, 0.5), rng.uniform(0.5, 3), rng.uniform(6.3, 8)))
         la = rng.uniform(-1.57, 1.3)
         lb = min(la + rng.uniform(0.02, 1.0), HALFPI)
-        boxes.append(((lo, lo + w, la, lb), rng.choice((2, 3, 3)) if tier == "quick" else rng.choice((2, 3, 4)),
+        boxes.append(((lo, lo + w, la, lb), rng.choice((2, 2, 3)) if tier == "quick" else rng.choice((2, 3, 4)),
                       rng.choice(("astronomical", "planetary"))))
     if replay is not None:
         boxes.insert(0, (tuple(replay["box"]), replay["depth"], replay["coordsys"]))
@@ -1011,6 +1042,43 @@ def true_bounds(w, nx, ny, bounds):
     return float(lon.min()), float(lon.max()), float(lat.min()), float(lat.max())
 
 
+def interior_poles(w, nx, ny):
+    """which poles (+1 north, -1 south) project inside the image rectangle"""
+    out = []
+    for sgn in (1, -1):
+        with np.errstate(all="ignore"):
+            p = w.wcs_world2pix(np.array([[0.0, 90.0 * sgn]]), 1)[0]
+        if np.all(np.isfinite(p)) and 0.5 <= p[0] <= nx + 0.5 and 0.5 <= p[1] <= ny + 0.5:
+            out.append(sgn)
+    return out
+
+
+def pole_probe(V, case, flt, samp, sgn, short_rad):
+    """The tile with a corner at the pole, at a depth where it is smaller than the
+    shortfall of the latitude bound: every pixel centre is inside the image; is the
+    tile (and its ancestors) accepted?"""
+    from toasty import toast
+    from toasty.pyramid import Pos
+    if short_rad <= 0:
+        return 0
+    d = min(20, max(3, int(math.ceil(math.log2(math.pi / short_rad))) + 1))
+    chain = []
+    for k in range(1, d + 1):
+        pos = Pos(k, 0, 0) if sgn < 0 else Pos(k, 2 ** (k - 1), 2 ** (k - 1))
+        chain.append(bool(flt(toast.create_single_tile(pos))))
+    t = toast.create_single_tile(pos)
+    lon, lat = toast.toast_tile_get_coords(t)
+    n = int(np.isfinite(samp(lon, lat)).sum())
+    if n and not all(chain):
+        V.disagreement("box_filter_complete for an image footprint containing a pole: latitude bound stops short of "
+                       "the pole, so the small tiles around it are rejected although they hold data",
+                       dict(case, kind="tan", pole=sgn), "tile and ancestors accepted",
+                       dict(tile=list(pos), pixel_centres_inside=n, first_rejected_level=chain.index(False) + 1,
+                            lat_bound_short_deg=math.degrees(short_rad)), True, finding_key=FINDING_POLE)
+        return 1
+    return 0
+
+
 def tan_case(V, case, n_single, want_e2e, work, tag):
     """One generated image: (a) shortfall of _image_bounds against the dense scan,
     (b) the property predicate on the tiles the real filter rejects near the rim,
@@ -1024,11 +1092,29 @@ def tan_case(V, case, n_single, want_e2e, work, tag):
     s = WcsSampler(data, w)
     bounds = s._image_bounds()
     flt, samp = s.filter(), s.sampler()
-    tb = true_bounds(w, nx, ny, bounds)
+    tb = list(true_bounds(w, nx, ny, bounds))
+    poles = interior_poles(w, nx, ny)
+    if 1 in poles:
+        tb[3] = HALFPI
+    if -1 in poles:
+        tb[2] = -HALFPI
     px = math.radians(scale)
     short = [(bounds[0] - tb[0]) / px, (tb[1] - bounds[1]) / px, (bounds[2] - tb[2]) / px, (tb[3] - bounds[3]) / px]
-    # does the model say a refinement of this image uses a single sample? (the F7 condition)
+    if poles:
+        short[0] = short[1] = 0.0      # all longitudes are covered when a pole is inside (checked below)
+    # the F7 condition: some refinement window of this image spans <= 1 pixel (axes <= 31 px)
     f7_possible = min(nx, ny) <= 31
+    side = int(np.argmax(short))
+    worst = short[side]
+    pole_side = (side == 3 and 1 in poles) or (side == 2 and -1 in poles)
+    key = FINDING_POLE if pole_side else (FINDING_F7 if f7_possible else None)
+    n_probe = 0
+    for sgn in poles:
+        sh = (HALFPI - bounds[3]) if sgn > 0 else (bounds[2] + HALFPI)
+        n_probe += pole_probe(V, case, flt, samp, sgn, sh)
+        if bounds[1] - bounds[0] < 2 * np.pi - 1e-6:
+            V.disagreement("image containing a pole covers all longitudes", dict(case, kind="tan"), ">= 2 pi",
+                           dict(lon_span=bounds[1] - bounds[0]), None)
     # candidate tiles: in the true footprint's box (slightly enlarged) but rejected by the real filter
     m = 0.02 * px
     big = _latlon_tile_filter(tb[0] - m, tb[1] + m, max(tb[2] - m, -HALFPI), min(tb[3] + m, HALFPI))
@@ -1046,19 +1132,17 @@ def tan_case(V, case, n_single, want_e2e, work, tag):
         k = int(np.isfinite(v).sum())
         if k:
             holes.append((list(t.pos), k))
-    worst = max(short)
     if holes:
-        is_f7 = f7_possible and worst > 0.02
         V.disagreement("box_filter_complete for an image footprint (WcsSampler.filter): a tile with pixel centres "
                        "inside the image is rejected", dict(case, kind="tan"),
                        "every tile holding data is accepted",
                        dict(rejected_tiles_with_data=holes[:4], bounds_short_by_px=[round(x, 3) for x in short]), True,
-                       finding_key=FINDING_F7 if is_f7 else None)
-    elif worst > 0.25:
+                       finding_key=key if worst > 0.02 else None)
+    elif worst > 0.25 and not pole_side:
         # bounds fall short by a sizeable fraction of a pixel although no tile of this depth was lost
         V.disagreement("image bounds contain the footprint (dense rim scan)", dict(case, kind="tan"),
                        "shortfall below 0.25 px", dict(bounds_short_by_px=[round(x, 3) for x in short]), None,
-                       finding_key=FINDING_F7 if f7_possible else None)
+                       finding_key=key)
     n_e2e = 0
     if want_e2e:
         A, B = run_pair(work, tag, flt, samp, case["e2e_depth"], CS.ASTRONOMICAL, fmt="npy")
@@ -1067,17 +1151,19 @@ def tan_case(V, case, n_single, want_e2e, work, tag):
         if d:
             V.disagreement("filtered_eq_unfiltered, TAN image via WcsSampler, end to end", dict(case, kind="tan"),
                            "identical file sets and pixels", dict(differences=d[:6], files=(len(A), len(B))), True,
-                           finding_key=FINDING_F7 if (f7_possible and worst > 0.02) else None)
-    return n_cand, len(holes), worst, n_e2e
+                           finding_key=key if worst > 0.02 else None)
+    return n_cand + n_probe, len(holes) + n_probe, worst, n_e2e
 
 
 F7_WITNESS = dict(nx=4, ny=4, ra=40.0, dec=10.0, scale=15.0, rot=10.0, parity=1, depth=5, e2e_depth=2)
+POLE_WITNESS = dict(nx=109, ny=117, ra=345.03971547346663, dec=-80.0, scale=0.2502860318453916,
+                    rot=24.524504892160152, parity=-1, depth=4, e2e_depth=2)
 
 
 def part_F(rng, tier, V, replay=None):
     work = common.workdir()
-    cases = [dict(F7_WITNESS)]
-    n = 7 if tier == "quick" else 40
+    cases = [dict(F7_WITNESS), dict(POLE_WITNESS)]
+    n = 6 if tier == "quick" else 40
     for i in range(n):
         big = rng.random() < 0.5
         nx = rng.randint(33, 120) if big else rng.randint(1, 31)
